@@ -205,6 +205,30 @@ def _loop_header_dominates(cfg, hdr, c):
     return False
 
 
+def r2b_values_stored_as_given(ctx, rid="C16.R2b"):
+    """What is stored for an individual is what was handed in (arrays turned into lists, nothing else): no element is re-cast, rounded or
+    re-typed on the way (`[1, -0.6]` must not become `[1, 0]`)."""
+    import re as _re
+    from ..astq import Canon
+    ctx.rule(rid, "add_individual_parameters stores the values it was given (the only rewriting is ndarray -> list)", 2)
+    f = ctx.ix.func(MOD, f"{CLS}.add_individual_parameters", rid)
+    L = Canon(f.node).lines(False, True)
+    rebinds = [ln for ln in L if ln.startswith("$2 = ")]
+    ok_conv = [ln for ln in rebinds if _re.fullmatch(r"\$2 = \{(%\d+): (%\d+)\.tolist\(\) if isinstance\(\2, np\.ndarray\) else \2 for \1, \2 in \$2\.items\(\)\}", ln)]
+    for ln in rebinds:
+        if ln in ok_conv:
+            ctx.ok(rid, f, f.node, "numpy arrays are turned into lists, every other value is kept as it is", construct="ndarray -> list")
+        else:
+            ctx.form(rid, f, f.node, ln, set(), ["$2.items()"], "", "the dictionary of values is rewritten before being stored", forbidden=[r"\bint\(", r"\bfloat\(", r"round\(", r"astype\("],
+                     construct="values rewritten")
+    stores = [ln for ln in L if _re.match(r"\$2\[[^\]]+\] = ", ln)]
+    for ln in stores:
+        ctx.violation(rid, f, f.node, f"`{ln[:90]}` rewrites a value of the individual before it is stored: the container does not hold what it was given "
+                      "(e.g. the elements of a list re-cast to the type of its first element: [1, -0.6] -> [1, 0])", construct="values rewritten")
+    commit = [ln for ln in L if ln == "$0._individual_parameters[$1] = $2"]
+    ctx.anchor(bool(commit), rid, f, f.node, "the (validated) dictionary itself is what is stored", "commit of the individual's values", construct="values committed")
+
+
 def r3_codec(ctx):
     ctx.rule("C16.R3", "table codec: writer `<name>_<i>` vs reader split; single-column case vs writer shape cases", 2)
     w = ctx.ix.func(MOD, f"{CLS}.to_dataframe", "C16.R3")
@@ -365,6 +389,7 @@ def r5_exact_export(ctx):
 
 
 def rules(ctx):
+    r2b_values_stored_as_given(ctx)
     r1_shape_cases(ctx)
     r2_validate_before_commit(ctx)
     r3_codec(ctx)
